@@ -89,9 +89,60 @@ def gen_tables(rnd, maxlen=30):
     return L
 
 
+def pl_of(x):
+    """Second element of an L entry: a pool index, or a custom line written as the JSON-serialisable list
+    [text, kind dict or None, ncells, sep, bad, lang]."""
+    if isinstance(x, int):
+        return POOL[x]
+    return PL(x[0], x[1], x[2], x[3], x[4], x[5])
+
+
 def text_of(L, nl="\n", final=True):
-    s = nl.join(" " * i + POOL[p].text for i, p in L)
+    s = nl.join(" " * i + pl_of(p).text for i, p in L)
     return s + (nl if final else "")
+
+
+STRETCH_LENGTHS = list(range(1, 131)) + [199, 200, 201, 255, 256, 257, 511, 512, 513, 1023, 1024, 1025]
+
+
+def stretched(p, n):
+    """A variant of pool line p with the same kind, cell count, delimiter, bad-tag offset and language whose text
+    has exactly n characters (None if that line cannot be stretched to n)."""
+    p = pl_of(p)
+    t = p.text
+    if p.lang is not None or p.sep is not None or t.strip() == "" or n <= len(t):
+        return None
+    pk = (p.kind or {}).get("en") or (p.kind or {}).get("fr")
+    extra = n - len(t)
+    fill = ("x" * 9 + " ") * (extra // 10) + "y" * (extra % 10)
+    if fill.endswith(" "):
+        fill = fill[:-1] + "z"
+    if pk == "TagLine":
+        if "#" in t:
+            return None
+        t2 = t + fill.replace(" ", "_")          # the last tag grows; a bad tag stays bad at the same offset
+    elif pk == "TableRow":
+        if not t.endswith("|") or t == "||":
+            return None
+        t2 = t[:-1] + fill.replace(" ", "_") + "|"       # the last cell grows
+    elif pk in ("FeatureLine", "RuleLine", "BackgroundLine", "ScenarioLine", "ExamplesLine", "StepLine", "Comment") or p.kind is None:
+        if p.kind is None and t in ("Given", "Feature", '\\"\\"\\"'):
+            return None
+        t2 = t + fill
+    else:
+        return None
+    return [t2, p.kind, p.ncells, p.sep, p.bad, p.lang]
+
+
+def gen_stretched(rnd, maxlen=20):
+    """gen() with one to three lines stretched to an exact length from STRETCH_LENGTHS."""
+    L = gen(rnd, maxlen)
+    for _ in range(rnd.randint(1, 3)):
+        k = rnd.randrange(len(L))
+        v = stretched(L[k][1], rnd.choice(STRETCH_LENGTHS))
+        if v is not None:
+            L[k] = (L[k][0], v)
+    return L
 
 
 class _Stop(Exception):
@@ -120,7 +171,7 @@ def simulate(L, stop_mode=False):
                 raise _Stop()
 
     def line(i):
-        return L[i][0], POOL[L[i][1]]
+        return L[i][0], pl_of(L[i][1])
 
     def trimmed(i):
         return line(i)[1].text.strip()
